@@ -44,7 +44,7 @@ func c18Cases(tier string, seed int64) []core.Case {
 		}
 		// the same batteries against a server whose Root is configured in a spelling that is not the cleaned one
 		// (-root /srv/export/ from shell completion, a /./ or // inside it)
-		for _, spelling := range []string{"trailing-slash", "dot-element", "double-slash"} {
+		for _, spelling := range []string{"trailing-slash", "dot-element", "double-slash", "narrowed", "moved-from-sibling"} {
 			for _, family := range []string{"walk", "mixed"} {
 				dotu, family, spelling := dotu, family, spelling
 				if tier != "thorough" && ((family == "mixed") != dotu) {
@@ -186,7 +186,28 @@ func c18Run(ctx *core.Ctx, family string, dotu bool, thorough bool, spelling str
 	case "double-slash":
 		exported = filepath.Dir(sb.root) + "//" + filepath.Base(sb.root)
 	}
+	switch spelling {
+	case "narrowed":
+		exported = filepath.Dir(sb.root) // S/mid first, the root proper afterwards
+	case "moved-from-sibling":
+		exported = filepath.Join(filepath.Dir(sb.root), "sibdir")
+	}
 	e.s = srvlab.NewUfsSess(exported, dotu, 1<<20)
+	if spelling == "narrowed" || spelling == "moved-from-sibling" {
+		// the operator re-points a running server: it served another (wider, or neighbouring) directory before, every
+		// connection made after the change is confined to the directory it is told to export now
+		if rc, err := e.raw(8192, dotu); err == nil {
+			rr := &rawc{c: rc}
+			rr.rpc(&wire.Msg{Type: wire.Twalk, Fid: 0, Newfid: 1, Wname: []string{".."}})
+			rr.rpc(&wire.Msg{Type: wire.Tstat, Fid: 1})
+			rr.rpc(&wire.Msg{Type: wire.Twalk, Fid: 0, Newfid: 2, Wname: []string{"root"}})
+			rr.rpc(&wire.Msg{Type: wire.Tcreate, Fid: 2, Name: "warmup", Perm: 0o644, Mode: 1})
+			rr.rpc(&wire.Msg{Type: wire.Tremove, Fid: 2})
+			rc.Hangup()
+			rc.Quiesce(W)
+		}
+		e.s.Ufs.Root = sb.root
+	}
 	rootIno := uint64(0)
 	if fi, err := os.Lstat(sb.root); err == nil {
 		rootIno = fi.Sys().(*syscall.Stat_t).Ino
